@@ -79,8 +79,10 @@ impl<T: Borrow<str> + for<'x> From<&'x str>> TryFromTerm for GenericLiteral<T> {
 
     fn try_from_term<U: Term>(term: U) -> Result<Self, Self::Error> {
         if term.is_literal() {
-            // the following is safe because we checked term.kind()
-            let lex = unsafe { term.lexical_form().unwrap_unchecked() };
+            // NB: Term is a safe trait, so its contract can not be relied upon for memory safety
+            let lex = term
+                .lexical_form()
+                .expect("Term::lexical_form inconsistent with Term::is_literal");
             let lex = T::from(&lex);
             if let Some(tag) = term.language_tag() {
                 Ok(Self::LanguageString(
@@ -88,8 +90,9 @@ impl<T: Borrow<str> + for<'x> From<&'x str>> TryFromTerm for GenericLiteral<T> {
                     tag.map_unchecked(|txt| T::from(&txt)),
                 ))
             } else {
-                // the following is safe because we checked term.kind()
-                let dt = unsafe { term.datatype().unwrap_unchecked() };
+                let dt = term
+                    .datatype()
+                    .expect("Term::datatype inconsistent with Term::is_literal");
                 Ok(Self::Typed(lex, dt.map_unchecked(|txt| T::from(&txt))))
             }
         } else {
